@@ -18,6 +18,9 @@ def main():
     fn = req.get("function", "")
     pid = req.get("property", "")
     todo = scenarios.select(fn, pid)
+    if req.get("scenario"):
+        # replay of a bounded stand-in's record: that scenario only
+        todo = [f for _fns, _ps, f in scenarios.REG if f.__name__ == req["scenario"]]
     tried = []
     for sc in todo:
         try:
